@@ -69,6 +69,12 @@ def serve(arg):
             mv = {"ev": "serve_mag", "id": "mag:%s:%d" % (T, z), "T": T, "z": z, "noattr": False, "sets": {}}
             try:
                 mf = el.magnetic_ff
+                for probe in (8, -8):            # asking for a charge state that has no entry does not create one
+                    try:
+                        mf[probe]
+                    except KeyError:
+                        pass
+                mv["charges"] = sorted(int(q) for q in mf)
                 for q, ff in mf.items():
                     sets = {}
                     for jn in ("j0", "J", "j2", "j4", "j6"):
@@ -94,5 +100,20 @@ def serve(arg):
                         cv["c"] = dec.enc(f.c)
                     except KeyError:
                         cv["exc"] = "KeyError"
+                    # the same entry through the calculator routes: symbol text, charge keyword (which overrides a
+                    # valence suffix, also with charge=0), and the atom's own f0
+                    def route(fn):
+                        try:
+                            return dec.enc(float(fn()))
+                        except (KeyError, ValueError):
+                            return {"k": "exc"}
+                    Q0 = 1.25
+                    routes = {"text": route(lambda: cromermann.fxrayatq(sym, Q0)),
+                              "kw": route(lambda: cromermann.fxrayatq(el.symbol, Q0, charge=q)),
+                              "kw_over_suffix": route(lambda: cromermann.fxrayatq(el.symbol + "2+", Q0, charge=q))}
+                    if q == 0 or q in arg["ions"][str(z)]:
+                        at = el.ion[q] if q else el
+                        routes["atom"] = route(lambda: at.xray.f0(Q0))
+                    cv["routes"] = routes
                     out.append(cv)
     return out
